@@ -13,11 +13,8 @@ over numbered accumulators); the oracles are written from the English statements
 from __future__ import annotations
 
 import collections
-import copy
-import itertools
 import math
 import operator
-import types
 import warnings
 from fractions import Fraction as Fr
 
@@ -1442,8 +1439,6 @@ class C11:
       allowed = set()
       if spec.name == 'valueacc':
         allowed = {'fresh', 'fresh_fresh'}      # result() of a never-updated ValueAccumulator: IndexError
-        if not case['sizes'][0] and False:
-          allowed |= set()
       if set(bad) - allowed:
         return f'merge/result raised: { {k: bad[k] for k in sorted(set(bad) - allowed)} }'
       if spec.order == 'reservoir':
